@@ -85,3 +85,15 @@ Theorem C12_where_through_a_wider_type_selects : forall c c' (b : bool) (x y : Z
   wrap c (if b then wrap c' x else wrap c' y) = if b then x else y.
 Proof. exact where_via_wider_type. Qed.
 Print Assumptions C12_where_through_a_wider_type_selects.
+
+(* nonzero, end to end from the primitive operators: the Range/Unsqueeze/Expand/Concat grid, indexed by the mask x != 0
+   through Reshape/Compress, is the matrix of the non-zero positions (row-major); its flattening followed by the strided
+   gathers is NumPy's nonzero — for every shape of rank >= 1 and every integer data *)
+From ND Require Import Ndx.GetItem Ndx.NdIndex Ndx.MaskIndex Ndx.NonzeroChain.
+Theorem C12_nonzero_end_to_end : forall sh data, sh <> [] -> length data = size sh ->
+  exists g hm,
+    ndindex_lowered sh = Done g /\ ndx_getitem_mask g (nz_mask sh data) = Done hm /\
+    Tensor.data hm = concat (nz_rows sh data) /\
+    ndx_nonzero sh data = nonzero_coords sh data (all_idx sh).
+Proof. exact nonzero_end_to_end. Qed.
+Print Assumptions C12_nonzero_end_to_end.
